@@ -2,9 +2,10 @@ SPECIFICATION Spec
 CONSTANTS
   ShapeIds = {1, 2, 3, 4, 5, 6}
   Intervals = {2, 10, 600}
-  TargetIds = {1, 2, 3}
+  TargetIds = {1, 2, 3, 6, 7, 8, 9, 10, 11, 12, 13, 14}
   ChainLen = 14
   Win = 1
+  Spread = 3
   TwoRegime = TRUE
 INVARIANTS WellFormed TimeRule EraOrder Crossing Emit
 CHECK_DEADLOCK FALSE
